@@ -227,6 +227,63 @@ fn check_line_deviation(c: &LineDeviation) -> Verdict {
     Verdict::Pass(Pass::new("line-deviation", rejected > 0).count("line_deviations", 7).count("line_deviations_rejected", rejected))
 }
 
+/// all pairs of non-data modules of one interior row or column of a valid rendering flipped together
+/// (two deviations that could compensate each other in a relational check of the row's two ends)
+#[derive(Debug, Clone)]
+pub struct PairDeviation {
+    pub sym: usize,
+    pub column: bool,
+    pub index: usize,
+}
+
+impl Case for PairDeviation {
+    fn to_json(&self) -> Value {
+        json!({"size": SYMBOLS[self.sym].name, "line": if self.column { "column" } else { "row" }, "index": self.index})
+    }
+}
+
+fn check_pair_deviation(c: &PairDeviation) -> Verdict {
+    let sym = &SYMBOLS[c.sym];
+    let cw: Vec<u8> = (0..sym.total()).map(|i| (i as u32 * 197 + c.index as u32 * 13 + 5) as u8).collect();
+    let base = place::render(sym, &cw);
+    let lay = place::layout(sym);
+    let n = if c.column { sym.rows } else { sym.cols };
+    let at = |k: usize| if c.column { k * sym.cols + c.index } else { c.index * sym.cols + k };
+    let nondata: Vec<usize> = (0..n).map(at).filter(|i| !matches!(lay[*i], ModuleKind::Data(..))).collect();
+    if nondata.len() > 16 {
+        // border rows / columns and alignment lines consist of finder modules only: pairs of their
+        // two ends, of neighbours and of a sample are taken instead of all n^2 / 2
+        let mut count = 0u64;
+        let m = nondata.len();
+        let pairs: Vec<(usize, usize)> = (0..m - 1).map(|i| (i, i + 1)).chain([(0, m - 1), (0, 1), (m - 2, m - 1), (1, m - 2)]).collect();
+        for (a, b) in pairs {
+            let mut bits = base.clone();
+            bits[nondata[a]] = !bits[nondata[a]];
+            bits[nondata[b]] = !bits[nondata[b]];
+            match check_converse(&BitmapCase { width: sym.cols, bits, stratum: "pair-deviation" }) {
+                Verdict::Pass(_) => count += 1,
+                Verdict::Fail(r) => return fail(format!("modules {} and {} flipped together: {}", nondata[a], nondata[b], r)),
+                other => return other,
+            }
+        }
+        return Verdict::Pass(Pass::new("pair-deviation/finder-line", true).count("pair_deviations", count));
+    }
+    let mut count = 0u64;
+    for a in 0..nondata.len() {
+        for b in a + 1..nondata.len() {
+            let mut bits = base.clone();
+            bits[nondata[a]] = !bits[nondata[a]];
+            bits[nondata[b]] = !bits[nondata[b]];
+            match check_converse(&BitmapCase { width: sym.cols, bits, stratum: "pair-deviation" }) {
+                Verdict::Pass(_) => count += 1,
+                Verdict::Fail(r) => return fail(format!("modules (row {}, col {}) and (row {}, col {}) flipped together: {}", nondata[a] / sym.cols, nondata[a] % sym.cols, nondata[b] / sym.cols, nondata[b] % sym.cols, r)),
+                other => return other,
+            }
+        }
+    }
+    Verdict::Pass(Pass::new("pair-deviation", count > 0).count("pair_deviations", count))
+}
+
 fn g_forward() -> BoxedStrategy<CwCase> {
     (any::<u16>(), any::<u64>(), any::<u16>())
         .prop_map(|(s, seed, k)| {
@@ -326,6 +383,24 @@ fn run(ctx: &Arc<Ctx>) {
         }
     }
     ctx.run_enumerated("line-deviations", "devline", lines, Some("every row and every column of a valid rendering of every size rewritten in 7 ways (inverted, non-data modules inverted, dark, light, shifted, alternating in both phases)"), check_line_deviation);
+    let mut pairs = Vec::new();
+    for (i, s) in SYMBOLS.iter().enumerate() {
+        for r in 0..s.rows {
+            pairs.push(PairDeviation { sym: i, column: false, index: r });
+        }
+        for c in 0..s.cols {
+            pairs.push(PairDeviation { sym: i, column: true, index: c });
+        }
+    }
+    ctx.run_enumerated("pair-deviations", "devpair", pairs, Some("every pair of finder / clock / alignment / corner modules within one row or one column of a valid rendering of every size flipped together (neighbours and end pairs on the lines that consist of such modules only)"), check_pair_deviation);
+    // shapes: every width 0..=150 with lengths around multiples of the width (incl. the empty array)
+    let mut shapes = Vec::new();
+    for w in 0..=150usize {
+        for len in [0usize, 1, w.saturating_sub(1), w, w + 1, 2 * w, 8 * w, 10 * w, 10 * w + 1, 12 * w, 144 * w] {
+            shapes.push(BitmapCase { width: w, bits: (0..len).map(|i| (i * 7 + w) % 3 == 0).collect(), stratum: "shape-edge" });
+        }
+    }
+    ctx.run_enumerated("shape-edges", "bitmap", shapes, Some("widths 0..=150 x lengths {0, 1, w-1, w, w+1, 2w, 8w, 10w, 10w+1, 12w, 144w}: error classification"), check_converse);
     ctx.run_generated("converse", "bitmap", ctx.cases(300_000, 5_000_000), g_converse, check_converse);
 }
 
@@ -333,6 +408,7 @@ fn replay(_ctx: &Ctx, kind: &str, case: &Value) -> Option<Verdict> {
     match kind {
         "cw" => Some(check_forward(&CwCase::from_json(case)?)),
         "bitmap" => Some(check_converse(&BitmapCase::from_json(case)?)),
+        "devpair" => Some(check_pair_deviation(&PairDeviation { sym: refimpl::table::index_of(case["size"].as_str()?)?, column: case["line"] == "column", index: case["index"].as_u64()? as usize })),
         "devline" => Some(check_line_deviation(&LineDeviation { sym: refimpl::table::index_of(case["size"].as_str()?)?, column: case["line"] == "column", index: case["index"].as_u64()? as usize })),
         "devrow" => Some(check_deviation_row(&DeviationBlock { sym: refimpl::table::index_of(case["size"].as_str()?)?, row: case["row"].as_u64()? as usize })),
         _ => None,
